@@ -48,21 +48,21 @@ Fixpoint amps_tie (s : scfg) (lib : string -> option alib) (sel : string -> stri
   end.
 (* designed amplifiers of a line and their exported form: "d1|d2|...#e1|e2|..."; "TIE" when a rounding tie is near *)
 Definition run_amps (c : cfg) (s : scfg) (lib : list (string * alib)) (sel : list (string * string))
-  (rg : list (string * Q)) (ops : list ain) (D0 ptot : Q) (l : line) : string :=
+  (rg rgn : list (string * Q)) (ops : list ain) (D0 ptot : Q) (l : line) : string :=
   match add_missing c l with
   | Err e => append "E:" e
   | Ok l1 =>
       let els := conn c (l_els l1) in
       let dr := match l_dk l with Roadm => true | Trx => false end in
       let tie := match mapM (pad_run c) (runs els) with
-                 | Ok post => match amp_items c (mk_rgain rg) (mk_ops ops) ptot dr None (combine (runs els) post) with
+                 | Ok post => match amp_items c (mk_rgain rg) (mk_rgain rgn) (mk_ops ops) ptot dr None (combine (runs els) post) with
                               | Ok items => amps_tie s (mk_lib lib) (mk_sel sel) D0 items
                               | Err _ => false
                               end
                  | Err _ => false
                  end in
       if tie then "TIE"%string else
-      match design_line_amps c s (mk_lib lib) (mk_sel sel) (mk_rgain rg) (mk_ops ops) D0 ptot dr els with
+      match design_line_amps c s (mk_lib lib) (mk_sel sel) (mk_rgain rg) (mk_rgain rgn) (mk_ops ops) D0 ptot dr els with
       | Err e => append "E:" e
       | Ok outs => append (join "|" (map aout_s outs)) (append "#" (join "|" (map (fun o => ain_s (export_amp o)) outs)))
       end
